@@ -316,6 +316,22 @@ def _build_model_driver(name, extract_v, driver_ml, stubs_c=None, packages=("uni
     shutil.rmtree(out, ignore_errors=True)
     os.makedirs(out)
     shutil.copy(os.path.join(COQ, "Extract", extract_v), os.path.join(out, "Ex.v"))
+    # the modules an extraction file requires need not be in the closure of any Properties file (definition-only
+    # driver modules): build them first, from a fresh checkout they do not exist yet
+    try:
+        rc0, dep_out = sh(["coqdep", "-Q", ".", "SqfsV", os.path.join("Extract", extract_v)], cwd=COQ)
+        deps = []
+        for line in dep_out.split("\n"):
+            if ":" in line and line.split(":", 1)[0].strip().endswith(".vo"):
+                deps += [w for w in line.split(":", 1)[1].split() if w.endswith(".vo") and not w.startswith(("Extract/", "Properties_"))]
+        missing = [d for d in deps if not os.path.exists(os.path.join(COQ, d))
+                   or os.path.getmtime(os.path.join(COQ, d)) < os.path.getmtime(os.path.join(COQ, d[:-1]))]
+        if missing:
+            with Lock("coq"):
+                write_coqproject()
+                coq_make(sorted(set(deps)))
+    except Exception:      # noqa: the coqc below reports what is really missing
+        pass
     rc, log = sh(["timeout", str(COQC_TIMEOUT), "coqc", "-Q", COQ, "SqfsV", "Ex.v"], cwd=out)
     if rc != 0:
         raise RuntimeError("extraction of %s failed:\n%s" % (extract_v, log[-3000:]))
